@@ -168,6 +168,12 @@ func jsonLeaves(t types.Type, path []int, out *[]jleaf) bool {
 			return true
 		}
 		return false
+	case *types.Map:
+		if isStringMap(t) {
+			*out = append(*out, jleaf{path: path, sort: SString, kind: "smap"})
+			return true
+		}
+		return false
 	case *types.Struct:
 		for i := 0; i < u.NumFields(); i++ {
 			if !u.Field(i).Exported() {
@@ -227,6 +233,8 @@ func (ex *Exec) encStruct(t types.Type, sv *StructV) (*Term, bool) {
 			args = append(args, v.(*BytesV).isNil)
 		case "bytes":
 			args = append(args, v.(*BytesV).s)
+		case "smap":
+			args = append(args, ex.encMap(v.(*MapV).m))
 		default:
 			args = append(args, v.(*Term))
 		}
@@ -267,6 +275,21 @@ func (ex *Exec) decStruct(t types.Type, s *Term) (*StructV, bool) {
 		case "bytes":
 			b := structAt(sv, l.path).(*BytesV)
 			setStructAt(sv, l.path, &BytesV{isNil: b.isNil, s: d})
+		case "smap":
+			// a map-valued member: absent/null (nil map) or a map with one entry (stated bound: decoded
+			// member maps of structs have at most one entry; the entry itself is arbitrary)
+			ex.H.noteBound("string maps decoded as struct members have <= 1 entry")
+			if ex.choose(2, nil, "json-member-map") == 0 {
+				setStructAt(sv, l.path, &MapV{})
+			} else {
+				m := ex.newSymMap()
+				k := tt.UF(fmt.Sprintf("jdec_%s_%d_key", key, i), SString, d)
+				v := tt.UF(fmt.Sprintf("jdec_%s_%d_val", key, i), SString, d)
+				m.has = tt.Store(m.has, k, tt.Bool(true))
+				m.val = tt.Store(m.val, k, v)
+				m.keys = append(m.keys, k)
+				setStructAt(sv, l.path, &MapV{m: m})
+			}
 		default:
 			setStructAt(sv, l.path, d)
 		}
